@@ -190,6 +190,9 @@ inductive Op (R : Type) where
   | recrop (bh bw : Nat)
   /-- `apply_geometric_augmentation` when kornia reports matrix `A` -/
   | aug (A : Aff R)
+  /-- the same with `RandomAffine(align_corners=True)` (fixes/C04-affine-align-corners.patch):
+  kornia's normalisation and sampling conventions agree and the image is warped by `A` itself -/
+  | augAligned (A : Aff R)
   /-- `apply_intensity_augmentation` -/
   | intensity
 
@@ -232,6 +235,7 @@ def step (cast : Nat → R) (s : St R) : Op R → St R
   | .aug A =>
     { s with content := (warpContent cast s.h s.w A).comp s.content, kp := A.comp s.kp,
              sizes := (s.h, s.w) :: s.sizes }
+  | .augAligned A => s.both s.h s.w A
   | .intensity => { s with sizes := (s.h, s.w) :: s.sizes }
 
 def run (cast : Nat → R) (h w : Nat) (ops : List (Op R)) : St R :=
